@@ -1,6 +1,7 @@
 import OmplModel.Proofs.SpaceBounds
 import OmplModel.Proofs.SpaceBoundsValid
 import OmplModel.Proofs.SpaceBoundsSamplers
+import OmplModel.Proofs.SpaceBoundsSubspace
 /-!
 C08 — bound enforcement and every sampler keep states inside the space.
 Property theorems only (helper lemmas: `Proofs/SpaceBounds*.lean`).  `[EX]` = exact real arithmetic
@@ -267,7 +268,7 @@ theorem sampler_inbounds_near (R : Rng ℝ) (hR : drawsOk R) (sp : Space ℝ) :
     · obtain ⟨a, b, c', d', he, hn⟩ :=
         rngQuaternion_unit (u1 := R.u (p.ui + 1)) (u2 := R.u (p.ui + 2)) (hR p.ui).1 (hR p.ui).2
       simpa [so3Uniform, satisfiesBounds, he] using so3Sat_of_unit hn
-    · obtain ⟨x, y, z, w, hq, hu⟩ := axisAngle_unit (R.g p.gi) (R.g (p.gi + 1)) (R.g (p.gi + 2))
+    · obtain ⟨x, y, z, w, hq, hu⟩ := axisAngle_unit (R.g (p.gi + 2)) (R.g (p.gi + 1)) (R.g p.gi)
         (Num.ofNat 2 * R.u p.ui * d)
       obtain ⟨x', y', z', w', he, hsat⟩ := quatMul_sat c hu (by simpa [satisfiesBounds] using hs)
       simpa [satisfiesBounds, hq, he] using hsat
@@ -285,6 +286,7 @@ theorem sampler_inbounds_near (R : Rng ℝ) (hR : drawsOk R) (sp : Space ℝ) :
     simp only [satisfiesBounds, Bool.and_eq_true] at hs
     simp only [sampleNear, satisfiesBounds, hd_ccons, tl_ccons, Bool.and_eq_true]
     refine ⟨?_, ih2 _ _ _ _ h.2 hd' hs.2⟩
+    unfold nearBranch
     split_ifs with hi
     · exact ih1 _ _ _ _ h.1 (mul_nonneg hd' (le_of_lt (lt_trans eps_pos hi))) hs.1
     · exact sampler_inbounds_uniform R hR _ _ h.1
@@ -408,6 +410,116 @@ theorem so3_sampler_aliased_not_unit :
     rw [if_pos (by rw [abs_of_neg (by norm_num)]; norm_num)]
     rw [abs_of_neg (by linarith)]
     linarith
+
+/-! ### SubspaceStateSampler `[EX]` -/
+
+/-- [EX] SubspaceStateSampler over the (arbitrarily nested) component at `path` of a compound, with the inner default
+sampler and the weight-scaled distance / σ (`weightSum_ < eps ? 1 : w/weightSum_` for a direct component — the F78
+convention —, 1 for deeper ones): for uniform, near (every radius `0 ≤ d`) and Gaussian (every σ) sampling the
+components it writes satisfy their bounds, so a full state that was in bounds stays in bounds; every substate on a path
+that parts ways with `path` is untouched.  Assumed: legal bounds, non-negative weights (OMPL rejects negative ones),
+a path through compounds only, `near`/`mean` in bounds. -/
+theorem subspace_sampler_inbounds (R : Rng ℝ) (hR : drawsOk R) (sp : Space ℝ) (path : List Nat)
+    (hv : validPath sp path = true) (hb : boundsOk sp) (hw : weightsNonneg sp)
+    (st : OmplModel.St ℝ) (hst : satisfiesBounds sp st = true) (p : Pos) :
+    satisfiesBounds sp (subspaceUniform R sp path st p).1 = true ∧
+    (∀ (near : OmplModel.St ℝ) (d : ℝ), 0 ≤ d → satisfiesBounds sp near = true →
+      satisfiesBounds sp (subspaceNear R sp path st near d p).1 = true) ∧
+    (∀ (mean : OmplModel.St ℝ) (sd : ℝ), satisfiesBounds sp mean = true →
+      satisfiesBounds sp (subspaceGauss R sp path st mean sd p).1 = true) ∧
+    (∀ q, Diverge path q →
+      getAt (subspaceUniform R sp path st p).1 q = getAt st q ∧
+      (∀ near d, getAt (subspaceNear R sp path st near d p).1 q = getAt st q) ∧
+      (∀ mean sd, getAt (subspaceGauss R sp path st mean sd p).1 q = getAt st q)) := by
+  have hsub := boundsOk_subAt path sp hb
+  refine ⟨?_, ?_, ?_, ?_⟩
+  · exact sat_setAt path sp st _ hv hst (sampler_inbounds_uniform R hR _ _ hsub)
+  · intro near d hd hn
+    exact sat_setAt path sp st _ hv hst
+      (sampler_inbounds_near R hR _ none _ _ _ hsub (mul_nonneg hd (subWeight_nonneg sp hw path))
+        (sat_getAt path sp near hv hn))
+  · intro mean sd hm
+    exact sat_setAt path sp st _ hv hst
+      (sampler_inbounds_gaussian R hR _ none _ _ _ hsub (sat_getAt path sp mean hv hm))
+  · intro q hq
+    exact ⟨getAt_setAt_other hq _ _, fun _ _ => getAt_setAt_other hq _ _, fun _ _ => getAt_setAt_other hq _ _⟩
+
+/-- two SE(3)-like bodies `[[R^1, SO(3)], [R^1, SO(3)]]`; the sampled subspace is the rotation of the second body -/
+noncomputable def exBodies : Space ℝ :=
+  .ccons 1 (.ccons 1 (.rv [0] [1]) (.ccons 1 .so3 .cnil)) (.ccons 1 (.ccons 1 (.rv [0] [1]) (.ccons 1 .so3 .cnil)) .cnil)
+
+theorem exBodies_ok : boundsOk exBodies ∧ weightsNonneg exBodies ∧ validPath exBodies [1, 1] = true := by
+  refine ⟨?_, ?_, ?_⟩
+  · simp [exBodies, boundsOk, rvOk]
+  · simp [exBodies, weightsNonneg]
+  · simp [exBodies, validPath, hasComp, comp]
+
+-- non-vacuity: near-sampling the nested path [1, 1] with radius 0.3, caller passing state == near
+example (R : Rng ℝ) (hR : drawsOk R) (st : OmplModel.St ℝ) (h : satisfiesBounds exBodies st = true) :
+    satisfiesBounds exBodies (subspaceNear R exBodies [1, 1] st st (3 / 10) {}).1 = true :=
+  (subspace_sampler_inbounds R hR exBodies [1, 1] exBodies_ok.2.2 exBodies_ok.1 exBodies_ok.2.1 st h {}).2.1
+    st _ (by norm_num) h
+
+/-- [AF] Alias safety of SubspaceStateSampler::sampleUniformNear / sampleGaussian as coded (program over named state
+slots; `inner b x` is the inner sampler's result on input `x`, told by `b` whether its output slot IS its input slot,
+behaving arbitrarily differently then — cf. F77): the inner sampler is always called with distinct scratch states
+(`b = false`), and the result in the caller's `state` is the functional model's, also when the caller passes
+`state == near` (`nearSlot = Slot.state`).  The in-place variant (seeded change s1) calls the inner sampler aliased. -/
+theorem subspace_sampler_alias_safe {α : Type} [Num α] (inner : Bool → OmplModel.St α → OmplModel.St α)
+    (path : List Nat) (m : Mem α) :
+    (run inner path m (subNearProg .near)) .state = setAt (m .state) path (inner false (getAt (m .near) path)) ∧
+    (run inner path m (subNearProg .state)) .state = setAt (m .state) path (inner false (getAt (m .state) path)) ∧
+    (run inner path m (subNearProgInPlace .near)) .state = setAt (m .state) path (inner true (getAt (m .near) path)) := by
+  refine ⟨?_, ?_, ?_⟩ <;> simp [run, subNearProg, subNearProgInPlace, exec, Mem.set]
+
+/-! ### the special spaces' samplers `[EX]` -/
+
+/-- [EX] Torus and Klein-bottle `sampleUniform` with their rejection loops as coded: whatever iteration is accepted, the
+state written is in bounds (Sphere: direct parameter draws, Möbius: compound default sampler — both already in
+`sampler_inbounds_uniform`; near / Gaussian of all four = draw then `enforceBounds`: `sampler_inbounds_near/_gaussian`). -/
+theorem special_sampler_inbounds (R : Rng ℝ) (hR : drawsOk R) (Rr r : ℝ) (fuel : Nat) (p : Pos) :
+    (∀ s p', (torusUniformRej R Rr r fuel p).2 = some (s, p') → satisfiesBounds (.torus Rr r) s = true) ∧
+    (∀ s p', (kleinUniformRej R fuel p).2 = some (s, p') → satisfiesBounds (.klein : Space ℝ) s = true) ∧
+    (∀ rad, satisfiesBounds (.sphere rad) (sampleUniform R (.sphere rad) p).1 = true) ∧
+    (∀ imax rad, 0 ≤ imax → satisfiesBounds (.mobius imax rad) (sampleUniform R (.mobius imax rad) p).1 = true) := by
+  refine ⟨?_, ?_, fun rad => sampler_inbounds_uniform R hR _ _ trivial,
+    fun imax rad h => sampler_inbounds_uniform R hR _ _ h⟩
+  · intro s p' h
+    unfold torusUniformRej at h
+    split at h <;> simp at h
+    rw [← h.1]; exact sampler_inbounds_uniform R hR _ _ trivial
+  · intro s p' h
+    unfold kleinUniformRej at h
+    split at h <;> simp at h
+    rw [← h.1]; exact sampler_inbounds_uniform R hR _ _ trivial
+
+/-- [AF] Termination of the rejection loops, stated as "returns at the first accepted draw": within `fuel` iterations the
+loop reports iteration `j` exactly when `j` is accepted and every earlier iteration was rejected (none threw), and it
+runs out of fuel exactly when all `fuel` iterations rejected.  That some iteration IS eventually accepted (acceptance
+probability > 0 over the RNG's distribution) is a probabilistic statement about the draws and is not provable here;
+the C++ loop has no bound. -/
+theorem rejection_returns_first_accepted (step : Nat → Option Bool) (fuel j : Nat) :
+    (rejFirst step fuel 0 = .found j ↔
+      (j < fuel ∧ step j = some true ∧ ∀ m, m < j → step m = some false)) ∧
+    (rejFirst step fuel 0 = .exhausted ↔ ∀ m, m < fuel → step m = some false) := by
+  constructor
+  · rw [rejFirst_found_iff]; simp
+  · rw [rejFirst_exhausted_iff]; simp
+
+-- non-vacuity: a step function that rejects twice and then accepts
+example : rejFirst (fun i => some (decide (2 ≤ i))) 10 0 = .found 2 := by decide
+
+/-- [EX] the Torus loop accepts an iteration whenever its `mu` draw is 0 and `0 < r ≤ R` (so acceptance is possible for
+every major/minor radius the space allows; it says nothing about probability) -/
+theorem torus_accepts_mu_zero (R : Rng ℝ) (Rr r : ℝ) (hr : 0 < r) (hRr : r ≤ Rr) (k : Nat) (h0 : R.u (k + 2) = 0) :
+    torusAccept R Rr r k = true := by
+  unfold torusAccept
+  simp only [uniformReal_val, h0, Num.ofNat, Nat.cast_zero, Nat.cast_one, Num.cos, decide_eq_true_eq]
+  have hc := Real.neg_one_le_cos ((Num.pi - -Num.pi) * R.u (k + 1) + -Num.pi)
+  have hpos : 0 < Rr + r := by linarith
+  have hn : 0 ≤ Rr + r * Real.cos ((Num.pi - -Num.pi) * R.u (k + 1) + -Num.pi) := by nlinarith
+  have := div_nonneg hn hpos.le
+  linarith
 
 /-! ### valid-state samplers `[AF]`
 
